@@ -16,19 +16,34 @@ pub async fn run_behaviour(b: &Value, out: &mut Vec<Value>) {
     let id = b["id"].clone();
     let mut s = Session::start(&cfg).await;
     take_panics();
-    let snap0 = s.snapshot().await;
-    out.push(json!({"reset": true, "b": id, "cfg": cfg, "post": snap0}));
+    // "record_from": k (1-based) records only the steps from the k-th on; the reset record then
+    // carries the snapshot taken right before that step
     let empty = vec![];
     let steps = b["steps"].as_array().unwrap_or(&empty);
+    let from = b["record_from"].as_u64().unwrap_or(1).max(1) as usize;
+    if from == 1 {
+        let snap0 = s.snapshot().await;
+        out.push(json!({"reset": true, "b": id, "cfg": cfg, "post": snap0}));
+    }
     for (i, st) in steps.iter().enumerate() {
         let c = st["c"].as_str().unwrap_or("");
+        if i + 1 == from && from > 1 {
+            let snap = s.snapshot().await;
+            out.push(json!({"reset": true, "b": id, "cfg": cfg, "post": snap}));
+        }
         let (outs, issue) = s.step(c, &st["cmd"]).await;
-        let post = s.snapshot().await;
-        s.retire_ended();
         let panics = take_panics();
         let iss: Vec<String> = issue.into_iter().collect();
-        out.push(json!({"b": id, "i": i + 1, "c": c, "cmd": st["cmd"], "outs": outs,
-                        "post": post, "issue": iss, "panics": panics}));
+        if i + 1 >= from {
+            let post = s.snapshot().await;
+            out.push(json!({"b": id, "i": i + 1, "c": c, "cmd": st["cmd"], "outs": outs,
+                            "post": post, "issue": iss, "panics": panics}));
+        } else if !iss.is_empty() || !panics.is_empty() {
+            // something went wrong on the way to the step of interest
+            out.push(json!({"pathissue": true, "b": id, "i": i + 1, "c": c, "cmd": st["cmd"],
+                            "issue": iss, "panics": panics}));
+        }
+        s.retire_ended();
     }
     s.stop().await;
 }
